@@ -102,4 +102,15 @@ prop("C17",
            dict(name="h_vercmp_plain", sources=["harness/h_vercmp.c"], profile="plain0", args={"quick": ["--frags=2", "--nn=3"], "thorough": ["--frags=2", "--nn=4"]}),
            dict(name="h_vercmp_core", sources=["harness/h_vercmp.c"], profile="asan", tiers=("thorough",), args={"thorough": ["--frags=3", "--core=1"]})],
      deadline={"quick": 240, "thorough": 3000})
+
+
+prop("C18",
+     level="exploration",
+     technique="bounded exhaustive enumeration (E2) over (length, alignment, seed, content pattern) against independent reference implementations; keys end at an ASan redzone at every alignment and at a PROT_NONE page",
+     rule="every (length 0..N, alignment 0..7, seed in {0,1,0xf721b64d,0xffffffff}, pattern in {00.., FF.., counting, each single byte set to 0x01/0x80}) case runs all six hashes "
+          "against references written from the published definitions; over-/under-reads fault at a redzone or PROT_NONE page; non-trivial = keys of length > 0",
+     bounds={"quick": "lengths 0..40 (55 k cases) + all 1-byte keys", "thorough": "lengths 0..100 (333 k cases) + all 1- and 2-byte keys"},
+     assumptions=["little-endian host (jenkins == jenkinsLE is asserted)", "spifhash_jenkins32 is only driven with 4-byte-aligned keys and a length in 32-bit words"],
+     runs=[dict(name="h_hash", sources=["harness/h_hash.c"], profile="asan", args={"quick": ["--maxlen=40"], "thorough": ["--maxlen=100"]})],
+     deadline={"quick": 120, "thorough": 1200})
 NOT_CLAIMED = {}
